@@ -71,7 +71,7 @@ static void one(int v)
     for (int f = 0; f < REF_MAXF; f++) {
         deg[f] = f < nf ? ref_indeg(g, CID, s, f) : 0;
         total += deg[f];
-#ifndef NO_REFCHECK
+#ifdef REFCHECK
         if (f < nf) VASSERTM(ref_sources(g, s, f) == deg[f], "reference model: IN side (in-degree) agrees with OUT side (edges)");
 #endif
         if (tc->flags & PARSEC_USE_DEPS_MASK) VASSERTM(deg[f] <= 1, "mask mode: at most one task predecessor per flow");
